@@ -23,6 +23,7 @@
 #include <unifex/tag_invoke.hpp>
 #include <unifex/detail/atomic_intrusive_list.hpp>
 #include <unifex/detail/completion_forwarder.hpp>
+#include <unifex/detail/verif_hooks.hpp>
 
 #include <unifex/detail/prologue.hpp>
 
@@ -94,6 +95,7 @@ private:
           , receiver_(std::forward<Receiver>(r)) {
           this->resume_ = [](waiter_base* self) noexcept {
             auto* op = static_cast<type*>(self);
+            UNIFEX_VERIF_YIELD("mutex.v2.resume");
             if (try_complete(op)) {
               op->forwardingOp_.start(*op);
             } else {
@@ -147,6 +149,7 @@ inline auto async_mutex::async_lock() noexcept {
 }
 
 inline bool async_mutex::try_lock() noexcept {
+  UNIFEX_VERIF_YIELD("mutex.v2.try");
   return !locked_.exchange(true, std::memory_order_acquire);
 }
 
@@ -165,11 +168,13 @@ void async_mutex::lock_raw_sender::_op<Receiver>::type::start() noexcept {
   // complete us, potentially destroying *this.
   async_mutex& mutex = mutex_;
 
+  UNIFEX_VERIF_YIELD("mutex.v2.push");
   mutex.queue_.push_back(this);
 
   // Dekker fence: orders the push before the locked_ exchange.
   std::atomic_thread_fence(std::memory_order_seq_cst);
 
+  UNIFEX_VERIF_YIELD("mutex.v2.xchg");
   if (!mutex.locked_.exchange(true, std::memory_order_acq_rel)) {
     mutex.process_queue();
   }
@@ -185,6 +190,7 @@ void async_mutex::lock_raw_sender::_op<Receiver>::type::stop() noexcept {
     }
     return;
   }
+  UNIFEX_VERIF_YIELD("mutex.v2.remove");
   if (mutex_.queue_.try_remove(this)) {
     cancelled_ = true;
     if (try_complete(this)) {
